@@ -111,3 +111,7 @@ Definition pairs_eqb : list (list byte * Z) -> list (list byte * Z) -> bool :=
   list_eqb (fun a b => bytes_eqb (fst a) (fst b) && (snd a =? snd b)).
 Definition v_mkheader (ukeys : list (list byte)) (impl : list (list byte * Z)) : Z :=
   if pairs_eqb (make_header Z (fun _ => -1) (fun _ => -2) (idhdr ukeys) []) impl then 0 else 1.
+
+(* ---- literal compression for the printers: the text handed to eval is the pformat text with
+   every newline replaced by a blank (checked byte-for-byte in Python before it is printed so) *)
+Definition nl2sp (l : list byte) : list byte := map (fun b => if byte_eqb b x0a then x20 else b) l.
